@@ -21,16 +21,30 @@ import (
 
 // ---------------------------------------------------------------- shared inputs
 
+// role: full (init + media in one buffer) | init | media | other | di (a shared mp4.DecryptInfo, see world)
 type inputInfo struct {
-	name  string
-	kind  string // clear-avc | clear-hevc | clear-aac | enc-<codec>-<scheme> | prog | encfile
-	codec string // avc | hevc | aac | ""
+	name   string
+	role   string
+	codec  string // avc | hevc | aac | ""
+	enc    bool
+	scheme string
+	diInit int // role di: the init input the DecryptInfo is derived from
 }
 
 type corpus struct {
 	info     []inputInfo
-	pristine [][]byte   // never handed to the library
+	pristine [][]byte   // never handed to the library (nil for role di)
 	hash     [][32]byte // of pristine
+	diHash   []string   // role di: digest of the freshly built DecryptInfo
+	nbytes   int        // inputs [0,nbytes) are byte slices, [nbytes, len(info)) are shared DecryptInfos
+}
+
+// world: what the goroutines of one run share read-only: the input byte slices and, as the only shared
+// decoded structures, DecryptInfos obtained by DecryptInit from a private (Reader-decoded) init segment.
+type world struct {
+	c     *corpus
+	bytes [][]byte
+	dis   []*mp4.DecryptInfo // index k-nbytes; built on demand in private worlds
 }
 
 var (
@@ -52,36 +66,108 @@ func mustRead(repo string, names ...string) []byte {
 	return b
 }
 
-// encryptBytes produces an encrypted variant of a clear fragmented input (sequentially, Reader path).
-func encryptBytes(clear []byte, scheme string) []byte {
-	f, err := mp4.DecodeFile(bytes.NewReader(clear))
+func must(err error) {
 	if err != nil {
 		panic(err)
 	}
+}
+
+func encodeFile(f *mp4.File) []byte {
+	var out bytes.Buffer
+	must(f.Encode(&out))
+	return out.Bytes()
+}
+
+// makeInit protects a clear init segment; tweak adjusts the tenc box (IV sizes, constant IV) before encoding.
+func makeInit(clearInit []byte, scheme string, tweak func(t *mp4.TencBox)) ([]byte, *mp4.InitProtectData) {
+	f, err := mp4.DecodeFile(bytes.NewReader(clearInit))
+	must(err)
 	ipd, err := mp4.InitProtect(f.Init, cryptKey, cryptIV, scheme, cryptKid, nil)
-	if err != nil {
-		panic(err)
+	must(err)
+	if tweak != nil {
+		tweak(ipd.Tenc)
 	}
+	return encodeFile(f), ipd
+}
+
+// makeMediaStd: the library's own EncryptFragment (cenc: 16-byte per-sample IVs in senc; cbcs: constant IV).
+func makeMediaStd(clearSeg []byte, ipd *mp4.InitProtectData) []byte {
+	f, err := mp4.DecodeFile(bytes.NewReader(clearSeg))
+	must(err)
 	for _, s := range f.Segments {
 		for _, fr := range s.Fragments {
-			if err := mp4.EncryptFragment(fr, cryptKey, cryptIV, ipd); err != nil {
-				panic(err)
+			must(mp4.EncryptFragment(fr, cryptKey, cryptIV, ipd))
+		}
+	}
+	return encodeFile(f)
+}
+
+// makeMediaPerSampleIV encrypts sample by sample with per-sample IVs of ivSize bytes stored in senc, optionally
+// signalled by a seig sample group (sbgp + sgpd inside the fragment) that overrides the tenc defaults.
+func makeMediaPerSampleIV(clearSeg []byte, ipd *mp4.InitProtectData, ivSize int, seig bool) []byte {
+	f, err := mp4.DecodeFile(bytes.NewReader(clearSeg))
+	must(err)
+	for _, s := range f.Segments {
+		for _, frag := range s.Fragments {
+			traf := frag.Moof.Traf
+			fss, err := frag.GetFullSamples(ipd.Trex)
+			must(err)
+			n := len(fss)
+			saiz := mp4.NewSaizBox(n)
+			saio := mp4.NewSaioBox()
+			must(traf.AddChild(saiz))
+			must(traf.AddChild(saio))
+			if seig {
+				sbgp := &mp4.SbgpBox{GroupingType: "seig", SampleCounts: []uint32{uint32(n)},
+					GroupDescriptionIndices: []uint32{65536 + 1}}
+				entry := &mp4.SeigSampleGroupEntry{CryptByteBlock: ipd.Tenc.DefaultCryptByteBlock,
+					SkipByteBlock: ipd.Tenc.DefaultSkipByteBlock, IsProtected: 1, PerSampleIVSize: byte(ivSize), KID: cryptKid}
+				sgpd := &mp4.SgpdBox{Version: 1, GroupingType: "seig", DefaultLength: uint32(entry.Size()),
+					SampleGroupEntries: []mp4.SampleGroupEntry{entry}}
+				must(traf.AddChild(sbgp))
+				must(traf.AddChild(sgpd))
+			}
+			senc := mp4.NewSencBox(n, n)
+			must(traf.AddChild(senc))
+			for i, fs := range fss {
+				iv16 := make([]byte, 16)
+				iv16[0] = 0xa5
+				iv16[ivSize-2] = byte((i + 1) >> 8)
+				iv16[ivSize-1] = byte(i + 1)
+				ssps, err := ipd.ProtFunc(fs.Data, ipd.Scheme)
+				must(err)
+				if ipd.Scheme == "cenc" {
+					must(mp4.CryptSampleCenc(fs.Data, cryptKey, iv16, ssps))
+				} else {
+					must(mp4.EncryptSampleCbcs(fs.Data, cryptKey, iv16, ssps, ipd.Tenc))
+				}
+				must(senc.AddSample(mp4.SencSample{IV: iv16[:ivSize], SubSamples: ssps}))
+				saiz.AddSampleInfo(iv16[:ivSize], ssps)
+			}
+			offset := uint64(8)
+			for _, c := range frag.Moof.Children {
+				if c.Type() != "traf" {
+					offset += c.Size()
+					continue
+				}
+				offset += 8
+				for _, tc := range c.(*mp4.TrafBox).Children {
+					if tc.Type() == "senc" {
+						saio.SetOffset(int64(offset + 12 + 4))
+					}
+					offset += tc.Size()
+				}
+				break
 			}
 		}
 	}
-	var out bytes.Buffer
-	if err := f.Encode(&out); err != nil {
-		panic(err)
-	}
-	return out.Bytes()
+	return encodeFile(f)
 }
 
 // randomisedAudio: same box structure as the AAC input, sample bytes drawn from the seed.
 func randomisedAudio(clear []byte, rng *hx.Rng) []byte {
 	f, err := mp4.DecodeFile(bytes.NewReader(clear))
-	if err != nil {
-		panic(err)
-	}
+	must(err)
 	for _, s := range f.Segments {
 		for _, fr := range s.Fragments {
 			for i := range fr.Mdat.Data {
@@ -89,59 +175,204 @@ func randomisedAudio(clear []byte, rng *hx.Rng) []byte {
 			}
 		}
 	}
-	var out bytes.Buffer
-	if err := f.Encode(&out); err != nil {
-		panic(err)
-	}
-	return out.Bytes()
+	return encodeFile(f)
 }
 
 func buildCorpus(repo string, seed uint64) *corpus {
 	c := &corpus{}
-	add := func(name, kind, codec string, data []byte) {
-		c.info = append(c.info, inputInfo{name, kind, codec})
+	add := func(name, role, codec string, enc bool, scheme string, data []byte) int {
+		c.info = append(c.info, inputInfo{name: name, role: role, codec: codec, enc: enc, scheme: scheme})
 		c.pristine = append(c.pristine, hx.Exact(data))
 		c.hash = append(c.hash, sha256.Sum256(data))
+		return len(c.info) - 1
 	}
-	avcClear := mustRead(repo, "init.mp4", "1.m4s")
-	hevcClear := mustRead(repo, "hvc1_init.mp4", "hvc1_seg_1.m4s")
-	aacClear := mustRead(repo, "aac_init.mp4", "aac_1.m4s")
-	add("init.mp4+1.m4s", "clear-avc", "avc", avcClear)
-	add("hvc1_init.mp4+hvc1_seg_1.m4s", "clear-hevc", "hevc", hevcClear)
-	add("aac_init.mp4+aac_1.m4s", "clear-aac", "aac", aacClear)
-	add("enc(cenc,avc)", "enc-avc-cenc", "avc", encryptBytes(avcClear, "cenc"))
-	add("enc(cbcs,avc)", "enc-avc-cbcs", "avc", encryptBytes(avcClear, "cbcs"))
-	add("enc(cenc,hevc)", "enc-hevc-cenc", "hevc", encryptBytes(hevcClear, "cenc"))
-	add("enc(cbcs,hevc)", "enc-hevc-cbcs", "hevc", encryptBytes(hevcClear, "cbcs"))
-	add("enc(cbcs,aac)", "enc-aac-cbcs", "aac", encryptBytes(aacClear, "cbcs"))
-	add("enc(cenc,aac)", "enc-aac-cenc", "aac", encryptBytes(aacClear, "cenc"))
 	rng := hx.NewRng(seed ^ 0xc20c20)
-	r1 := randomisedAudio(aacClear, rng)
-	add("aac-random-payload-1", "clear-aac", "aac", r1)
-	add("enc(cbcs,aac-random-payload-2)", "enc-aac-cbcs", "aac", encryptBytes(randomisedAudio(aacClear, rng), "cbcs"))
-	add("cbcs.mp4", "encfile", "", mustRead(repo, "cbcs.mp4"))
-	add("init_prog.mp4", "prog", "", mustRead(repo, "init_prog.mp4"))
-	add("moof_enc.m4s", "other", "", mustRead(repo, "moof_enc.m4s"))
-	add("bbb5s_aac_sidx.mp4", "other", "", mustRead(repo, "bbb5s_aac_sidx.mp4"))
+	type codecFiles struct{ codec, init, seg string }
+	var encInits []int
+	for _, cf := range []codecFiles{{"avc", "init.mp4", "1.m4s"}, {"hevc", "hvc1_init.mp4", "hvc1_seg_1.m4s"}, {"aac", "aac_init.mp4", "aac_1.m4s"}} {
+		ini, seg := mustRead(repo, cf.init), mustRead(repo, cf.seg)
+		if cf.codec == "aac" {
+			seg = randomisedAudio(seg, rng) // sample bytes depend on the seed
+		}
+		full := append(hx.Exact(ini), seg...)
+		// clear inputs: one buffer holding init + media, and the two parts as separate buffers
+		add(cf.codec+":clear:full", "full", cf.codec, false, "", full)
+		add(cf.codec+":clear:init", "init", cf.codec, false, "", ini)
+		add(cf.codec+":clear:media", "media", cf.codec, false, "", seg)
+		type variant struct {
+			name, scheme string
+			tweak        func(t *mp4.TencBox)
+			perSample    int // IV size of the matching "plain" media (0: EncryptFragment)
+		}
+		variants := []variant{
+			{"cenc-iv16", "cenc", nil, 0},
+			{"cenc-iv8", "cenc", func(t *mp4.TencBox) { t.DefaultPerSampleIVSize = 8 }, 8},
+			{"cbcs-const16", "cbcs", nil, 0},
+			{"cbcs-const8", "cbcs", func(t *mp4.TencBox) { t.DefaultConstantIV = hx.Exact(cryptIV[:8]) }, 0},
+			{"cbcs-persample16", "cbcs", func(t *mp4.TencBox) { t.DefaultConstantIV = nil; t.DefaultPerSampleIVSize = 16 }, 16},
+		}
+		if cf.codec == "hevc" { // fewer variants for the third codec (run time)
+			variants = []variant{variants[0], variants[2]}
+		}
+		for _, v := range variants {
+			encInit, ipd := makeInit(ini, v.scheme, v.tweak)
+			encInits = append(encInits, add(cf.codec+":"+v.name+":init", "init", cf.codec, true, v.scheme, encInit))
+			var media []byte
+			if v.perSample > 0 {
+				media = makeMediaPerSampleIV(seg, ipd, v.perSample, false)
+			} else {
+				media = makeMediaStd(seg, ipd)
+			}
+			add(cf.codec+":"+v.name+":media", "media", cf.codec, true, v.scheme, media)
+			if v.name == "cenc-iv16" || v.name == "cbcs-const16" {
+				add(cf.codec+":"+v.name+":full", "full", cf.codec, true, v.scheme, append(hx.Exact(encInit), media...))
+				// key-rotation style media: per-sample IVs announced by a seig sample group
+				for _, n := range []int{8, 16} {
+					if cf.codec == "hevc" && n == 8 {
+						continue
+					}
+					add(fmt.Sprintf("%s:%s:media-seig-iv%d", cf.codec, v.name, n), "media", cf.codec, true, v.scheme,
+						makeMediaPerSampleIV(seg, ipd, n, true))
+				}
+			}
+		}
+	}
+	add("cbcs.mp4", "other", "", false, "", mustRead(repo, "cbcs.mp4"))
+	add("init_prog.mp4", "other", "", false, "", mustRead(repo, "init_prog.mp4"))
+	add("moof_enc.m4s", "other", "", false, "", mustRead(repo, "moof_enc.m4s"))
+	add("bbb5s_aac_sidx.mp4", "other", "", false, "", mustRead(repo, "bbb5s_aac_sidx.mp4"))
+	c.nbytes = len(c.info)
+	// shared DecryptInfos: one per encrypted init
+	for _, k := range encInits {
+		c.info = append(c.info, inputInfo{name: "DecryptInfo(" + c.info[k].name + ")", role: "di", codec: c.info[k].codec,
+			enc: true, scheme: c.info[k].scheme, diInit: k})
+		c.pristine = append(c.pristine, nil)
+		c.hash = append(c.hash, [32]byte{})
+		c.diHash = append(c.diHash, diDigest(c.buildDI(len(c.info)-1)))
+	}
 	return c
 }
 
-func (c *corpus) copies() [][]byte {
-	out := make([][]byte, len(c.pristine))
-	for i, p := range c.pristine {
-		out[i] = hx.Exact(p)
+func (c *corpus) buildDI(k int) *mp4.DecryptInfo {
+	f, err := mp4.DecodeFile(bytes.NewReader(c.pristine[c.info[k].diInit]))
+	must(err)
+	di, err := mp4.DecryptInit(f.Init)
+	must(err)
+	return &di
+}
+
+// diDigest serialises everything a DecryptInfo refers to.
+func diDigest(di *mp4.DecryptInfo) string {
+	h := sha256.New()
+	for _, ti := range di.TrackInfos {
+		fmt.Fprintf(h, "track %d/", ti.TrackID)
+		if ti.Sinf != nil {
+			var b bytes.Buffer
+			_ = ti.Sinf.Encode(&b)
+			h.Write(b.Bytes())
+			if ti.Sinf.Schi != nil && ti.Sinf.Schi.Tenc != nil {
+				fmt.Fprintf(h, "civ=%x/", ti.Sinf.Schi.Tenc.DefaultConstantIV)
+			}
+		}
+		if ti.Trex != nil {
+			var b bytes.Buffer
+			_ = ti.Trex.Encode(&b)
+			h.Write(b.Bytes())
+		}
+	}
+	for _, p := range di.Psshs {
+		var b bytes.Buffer
+		_ = p.Encode(&b)
+		h.Write(b.Bytes())
+	}
+	return hex.EncodeToString(h.Sum(nil)[:12])
+}
+
+// sharedWorld: everything built up front.
+func (c *corpus) sharedWorld() *world {
+	w := &world{c: c, bytes: make([][]byte, c.nbytes), dis: make([]*mp4.DecryptInfo, len(c.info)-c.nbytes)}
+	for i := 0; i < c.nbytes; i++ {
+		w.bytes[i] = hx.Exact(c.pristine[i])
+	}
+	for k := c.nbytes; k < len(c.info); k++ {
+		w.dis[k-c.nbytes] = c.buildDI(k)
+	}
+	return w
+}
+
+// privateWorld: fresh copies of the inputs in `need` only; DecryptInfos are built on first use.
+func (c *corpus) privateWorld(need map[int]bool) *world {
+	w := &world{c: c, bytes: make([][]byte, c.nbytes), dis: make([]*mp4.DecryptInfo, len(c.info)-c.nbytes)}
+	for k := range need {
+		if k >= 0 && k < c.nbytes {
+			w.bytes[k] = hx.Exact(c.pristine[k])
+		}
+	}
+	return w
+}
+
+func (w *world) di(k int) *mp4.DecryptInfo {
+	j := k - w.c.nbytes
+	if j < 0 || j >= len(w.dis) {
+		return nil
+	}
+	if w.dis[j] == nil {
+		w.dis[j] = w.c.buildDI(k)
+	}
+	return w.dis[j]
+}
+
+// changed lists the shared inputs that no longer equal their pristine state (exact: byte comparison for the
+// slices; sha=true additionally goes through SHA-256, as the property's oracle is stated) and restores them.
+func (w *world) changed(sha bool) []int {
+	var out []int
+	for k := 0; k < w.c.nbytes; k++ {
+		if w.bytes[k] == nil {
+			continue
+		}
+		diff := !bytes.Equal(w.bytes[k], w.c.pristine[k])
+		if sha && sha256.Sum256(w.bytes[k]) != w.c.hash[k] {
+			diff = true
+		}
+		if diff {
+			out = append(out, k)
+			copy(w.bytes[k], w.c.pristine[k])
+		}
+	}
+	for k := w.c.nbytes; k < len(w.c.info); k++ {
+		j := k - w.c.nbytes
+		if w.dis[j] != nil && diDigest(w.dis[j]) != w.c.diHash[j] {
+			out = append(out, k)
+			w.dis[j] = w.c.buildDI(k)
+		}
 	}
 	return out
 }
 
-func (c *corpus) isClear(i int) bool { return strings.HasPrefix(c.info[i].kind, "clear-") }
-func (c *corpus) isEnc(i int) bool   { return strings.HasPrefix(c.info[i].kind, "enc-") }
+func (c *corpus) isClear(i int) bool { return c.info[i].role == "full" && !c.info[i].enc }
+func (c *corpus) isEnc(i int) bool   { return c.info[i].role == "full" && c.info[i].enc }
+
+// pick returns a random input satisfying the predicate (-1 if none).
+func (c *corpus) pick(rng *hx.Rng, ok func(i int, in inputInfo) bool) int {
+	var cand []int
+	for i, in := range c.info {
+		if ok(i, in) {
+			cand = append(cand, i)
+		}
+	}
+	if len(cand) == 0 {
+		return -1
+	}
+	return cand[rng.Intn(len(cand))]
+}
 
 // ---------------------------------------------------------------- ops
 
 // op codes: D decode(Reader) R decode(SliceReader) I info E encode W encodeSW G samples
 //
-//	C encrypt cenc, c encrypt cbcs, X decrypt, B to byte stream, N to nalu sample
+//	C encrypt cenc, c encrypt cbcs, X decrypt (init and media in the same object), B to byte stream, N to nalu sample
+//	K DecryptInit(init object) -> decrypt-info object; Y DecryptSegment(media object, decrypt info: own object or shared)
+//	P/p InitProtect(init object, cenc/cbcs) -> protect-data object; F EncryptFragment(media object, protect data)
 type op struct {
 	code byte
 	src  string // D/R: "i<k>" (shared input k) or "o<k>" (own buffer object k)
@@ -152,8 +383,10 @@ func (p op) String() string {
 	switch p.code {
 	case 'D', 'R':
 		return fmt.Sprintf("%c:%s:%d", p.code, p.src, p.d)
-	case 'I', 'E', 'W', 'G':
+	case 'I', 'E', 'W', 'G', 'K', 'P', 'p', 'F':
 		return fmt.Sprintf("%c:%d:%d", p.code, p.o, p.d)
+	case 'Y':
+		return fmt.Sprintf("%c:%d:%s", p.code, p.o, p.src)
 	}
 	return fmt.Sprintf("%c:%d", p.code, p.o)
 }
@@ -185,7 +418,7 @@ func parseProg(s string) ([]op, error) {
 			}
 			o.src = f[1]
 			o.d, err = strconv.Atoi(f[2])
-		case 'I', 'E', 'W', 'G':
+		case 'I', 'E', 'W', 'G', 'K', 'P', 'p', 'F':
 			if len(f) != 3 {
 				return nil, fmt.Errorf("bad op %q", t)
 			}
@@ -193,6 +426,12 @@ func parseProg(s string) ([]op, error) {
 			if err == nil {
 				o.d, err = strconv.Atoi(f[2])
 			}
+		case 'Y':
+			if len(f) != 3 || len(f[2]) < 2 {
+				return nil, fmt.Errorf("bad op %q", t)
+			}
+			o.o, err = strconv.Atoi(f[1])
+			o.src = f[2]
 		case 'C', 'c', 'X', 'B', 'N':
 			if len(f) != 2 {
 				return nil, fmt.Errorf("bad op %q", t)
@@ -223,10 +462,14 @@ func opName(code byte) string {
 		return "File.EncodeSW"
 	case 'G':
 		return "Fragment.GetFullSamples"
-	case 'C', 'c':
+	case 'C', 'c', 'F':
 		return "EncryptFragment"
-	case 'X':
+	case 'X', 'Y':
 		return "DecryptSegment"
+	case 'K':
+		return "DecryptInit"
+	case 'P', 'p':
+		return "InitProtect"
 	case 'B':
 		return "ConvertSampleToByteStream"
 	case 'N':
@@ -243,6 +486,9 @@ type object struct {
 	isBuf   bool
 	samples []mp4.FullSample
 	isSamp  bool
+	di      *mp4.DecryptInfo     // from DecryptInit; refers into the init object it was taken from
+	ipd     *mp4.InitProtectData // from InitProtect; its ProtFunc closes over the init's parameter sets
+	from    *mp4.File            // di / ipd: the init file they were derived from
 }
 
 type opResult struct {
@@ -256,7 +502,8 @@ func sum(b []byte) string {
 }
 
 // execOp runs one op on the goroutine's objects; inputs are the byte slices "i<k>" refers to.
-func execOp(p op, objs map[int]*object, inputs [][]byte) (res opResult) {
+func execOp(p op, objs map[int]*object, w *world) (res opResult) {
+	inputs := w.bytes
 	defer func() {
 		if r := recover(); r != nil {
 			res = opResult{class: "panic"}
@@ -271,7 +518,7 @@ func execOp(p op, objs map[int]*object, inputs [][]byte) (res opResult) {
 			return opResult{class: "skip"}
 		}
 		if p.src[0] == 'i' {
-			if k < 0 || k >= len(inputs) {
+			if k < 0 || k >= len(inputs) || inputs[k] == nil {
 				return opResult{class: "skip"}
 			}
 			data = inputs[k]
@@ -388,6 +635,71 @@ func execOp(p op, objs map[int]*object, inputs [][]byte) (res opResult) {
 			}
 		}
 		return opResult{"ok", ""}
+	case 'K':
+		o := get(p.o)
+		if o == nil || o.file == nil || o.file.Init == nil {
+			return opResult{class: "skip"}
+		}
+		delete(objs, p.d)
+		di, err := mp4.DecryptInit(o.file.Init)
+		if err != nil {
+			return opResult{class: "err"}
+		}
+		objs[p.d] = &object{di: &di, from: o.file}
+		return opResult{"ok", fmt.Sprintf("tracks=%d,%s", len(di.TrackInfos), diDigest(&di))}
+	case 'Y':
+		m := get(p.o)
+		if m == nil || m.file == nil || len(p.src) < 2 {
+			return opResult{class: "skip"}
+		}
+		k, err := strconv.Atoi(p.src[1:])
+		if err != nil {
+			return opResult{class: "skip"}
+		}
+		var di *mp4.DecryptInfo
+		if p.src[0] == 'i' {
+			di = w.di(k)
+		} else if o := get(k); o != nil {
+			di = o.di
+		}
+		if di == nil {
+			return opResult{class: "skip"}
+		}
+		for _, s := range m.file.Segments {
+			if err := mp4.DecryptSegment(s, *di, cryptKey); err != nil {
+				return opResult{class: "err"}
+			}
+		}
+		return opResult{"ok", ""}
+	case 'P', 'p':
+		o := get(p.o)
+		if o == nil || o.file == nil || o.file.Init == nil {
+			return opResult{class: "skip"}
+		}
+		delete(objs, p.d)
+		scheme := "cenc"
+		if p.code == 'p' {
+			scheme = "cbcs"
+		}
+		ipd, err := mp4.InitProtect(o.file.Init, cryptKey, cryptIV, scheme, cryptKid, nil)
+		if err != nil {
+			return opResult{class: "err"}
+		}
+		objs[p.d] = &object{ipd: ipd, from: o.file}
+		return opResult{"ok", scheme}
+	case 'F':
+		m, k := get(p.o), get(p.d)
+		if m == nil || m.file == nil || k == nil || k.ipd == nil {
+			return opResult{class: "skip"}
+		}
+		for _, s := range m.file.Segments {
+			for _, fr := range s.Fragments {
+				if err := mp4.EncryptFragment(fr, cryptKey, cryptIV, k.ipd); err != nil {
+					return opResult{class: "err"}
+				}
+			}
+		}
+		return opResult{"ok", ""}
 	case 'B':
 		o := get(p.o)
 		if o == nil || !o.isSamp {
@@ -478,13 +790,21 @@ func finalDigest(objs map[int]*object) (res string) {
 			parts = append(parts, fmt.Sprintf("%d:buf:%d:%s", k, len(o.buf), sum(o.buf)))
 		case o.isSamp:
 			parts = append(parts, fmt.Sprintf("%d:samples:%s", k, samplesDigest(o.samples)))
+		case o.di != nil:
+			parts = append(parts, fmt.Sprintf("%d:di:%s", k, diDigest(o.di)))
+		case o.ipd != nil:
+			var b bytes.Buffer
+			if o.ipd.Tenc != nil {
+				_ = o.ipd.Tenc.Encode(&b)
+			}
+			parts = append(parts, fmt.Sprintf("%d:ipd:%s:%s", k, o.ipd.Scheme, sum(b.Bytes())))
 		}
 	}
 	return strings.Join(parts, " ")
 }
 
 // runProgram executes a whole program; between(i) is called before op i (skew / Gosched injection).
-func runProgram(p []op, inputs [][]byte, between func(i int)) (results []opResult, final string, objs map[int]*object) {
+func runProgram(p []op, inputs *world, between func(i int)) (results []opResult, final string, objs map[int]*object) {
 	objs = map[int]*object{}
 	for i, o := range p {
 		if between != nil {
@@ -588,6 +908,13 @@ func aliasOf(o *object, inputs [][]byte) []int {
 		for i := range o.samples {
 			byteSlices(reflect.ValueOf(o.samples[i].Data), seen, report, 0)
 		}
+	case o.di != nil:
+		byteSlices(reflect.ValueOf(o.di), seen, report, 0)
+		byteSlices(reflect.ValueOf(o.from), seen, report, 0)
+	case o.ipd != nil:
+		byteSlices(reflect.ValueOf(o.ipd.Tenc), seen, report, 0)
+		byteSlices(reflect.ValueOf(o.ipd.Trex), seen, report, 0)
+		byteSlices(reflect.ValueOf(o.from), seen, report, 0) // ProtFunc closes over avcC / hvcC of the init
 	}
 	var out []int
 	for i := range inputs {
